@@ -66,13 +66,7 @@ func (n String) String() string {
 }
 
 func (n String) Number() float64 {
-	ret, err := strconv.ParseFloat(string(n), 64)
-
-	if err != nil {
-		return math.NaN()
-	}
-
-	return ret
+	return getStringNumber(string(n))
 }
 
 func (n String) Bool() bool {
@@ -97,12 +91,35 @@ func (n NodeSet) Bool() bool {
 	return len(n) > 0
 }
 
+// getStringNumber implements the XPath 1.0 number() conversion of a string:
+// optional whitespace, an optional minus sign, a Number (Digits ('.' Digits?)?
+// | '.' Digits) and optional whitespace. Anything else is NaN.
 func getStringNumber(str string) float64 {
-	ret, err := strconv.ParseFloat(str, 64)
+	str = strings.Trim(str, " \t\r\n")
+	digits := 0
+	seenDot := false
 
-	if err != nil {
+	for i := 0; i < len(str); i++ {
+		c := str[i]
+
+		switch {
+		case c >= '0' && c <= '9':
+			digits++
+		case c == '.' && !seenDot:
+			seenDot = true
+		case c == '-' && i == 0:
+		default:
+			return math.NaN()
+		}
+	}
+
+	if digits == 0 {
 		return math.NaN()
 	}
+
+	// The syntax is valid, so the only possible error is ErrRange, for which
+	// ParseFloat returns the correctly signed infinity.
+	ret, _ := strconv.ParseFloat(str, 64)
 
 	return ret
 }
